@@ -208,6 +208,14 @@ class World:
         for ms in mspecs:
             cls = modgen.build_class(ms, events, hw=hw)
             cfg[ms['name']] = modgen.module_cfg(ms, cls)
+            if rng.random() < 0.2:
+                # what the structure report says about the implementing class is derived from the class, whatever a
+                # configuration claims
+                claim = rng.choice(['interface_classes', 'features', 'implementation'])
+                cfg[ms['name']][claim] = {'interface_classes': rng.choice([['Readable'], ['Drivable'], ['Writable', 'Readable'], []]),
+                                          'features': rng.choice([['HasFoo'], ['HasVerifA', 'HasOffset']]),
+                                          'implementation': 'some.other.Class'}[claim]
+                r.count('configurations_claiming_another_class_shape')
             # the configuration widens the datatype of some changeable parameters beyond what the class declares: the
             # description shows the configured datatype and the node accepts exactly what it describes
             for p in ms['params']:
